@@ -146,6 +146,8 @@ fn check_c24(plan: &Plan, out: &Outcome) -> Verdict {
         // model: per key, registered writers with their last write time
         let mut reg: BTreeMap<u8, BTreeMap<u32, u64>> = BTreeMap::new();
         let mut gone: Vec<u32> = vec![];
+        let mut last_release: BTreeMap<u8, u64> = BTreeMap::new();
+        let mut last_release_all: u64 = 0;
         // sticky owner per reader and key (for ties)
         let mut sticky: [BTreeMap<u8, u32>; 2] = [BTreeMap::new(), BTreeMap::new()];
         let mut i = 0;
@@ -192,7 +194,11 @@ fn check_c24(plan: &Plan, out: &Outcome) -> Verdict {
                                 let got = presented[rd].contains(uid);
                                 if got && stronger_certain {
                                     let o = others.iter().find(|o| o.1 > sw && o.2).unwrap();
-                                    v.violate("C24", "C24.weaker-presented", "C24.weaker-presented".into(), format!("reader {rd} presented seq {uid} of writer {w} (strength {sw}) on instance {key} while writer {} (strength {}) is alive, has the instance registered and wrote it {} ms before", o.0, o.1, (t - reg[key][&o.0]) / 1_000_000));
+                                    // Did the stronger writer write this instance after the last event that can leave the reader
+                                    // without an owner (unregister, writer deletion, participant crash, possible deadline miss)?
+                                    // Then the reader has seen it take the instance over and must still know it as the owner.
+                                    let established = d_ns.is_none() && reg[key][&o.0] > last_release.get(key).copied().unwrap_or(0).max(last_release_all);
+                                    v.violate("C24", "C24.weaker-presented", if established { "C24.weaker-presented owner-established".to_string() } else { "C24.weaker-presented".to_string() }, format!("reader {rd} presented seq {uid} of writer {w} (strength {sw}) on instance {key} while writer {} (strength {}) is alive, has the instance registered and wrote it {} ms before", o.0, o.1, (t - reg[key][&o.0]) / 1_000_000));
                                 }
                                 if !got && !stronger_possible && !equal {
                                     v.violate("C24", "C24.owner-not-presented", format!("C24.owner-not-presented after_departure={}", !gone.is_empty()), format!("reader {rd} did not present seq {uid} of writer {w} (strength {sw}) on instance {key} although no other live writer of that instance is as strong (writers gone: {:?})", gone));
@@ -217,6 +223,7 @@ fn check_c24(plan: &Plan, out: &Outcome) -> Verdict {
                             reg.entry(*key).or_default().insert(*w, t);
                         }
                         WKind::Unregister => {
+                            last_release.insert(*key, t);
                             if let Some(m) = reg.get_mut(key) {
                                 m.remove(w);
                             }
@@ -230,12 +237,14 @@ fn check_c24(plan: &Plan, out: &Outcome) -> Verdict {
                     }
                 }
                 Op::DeleteWriter { id, .. } => {
+                    last_release_all = rec.ret_t;
                     gone.push(*id);
                     for s in sticky.iter_mut() {
                         s.retain(|_, o| o != id);
                     }
                 }
                 Op::Crash { p: pp } => {
+                    last_release_all = rec.ret_t;
                     for (w, _, wp) in &p.writers {
                         if wp == pp {
                             gone.push(*w);
